@@ -1,6 +1,7 @@
 import Autog.Model.Phase1
 import Autog.Lemmas.DfsBreakerTotal
 import Autog.Lemmas.Adj
+import Autog.Lemmas.AdjSub
 /-! # C14 — depth-first cycle breaking reverses an irredundant edge set; acyclic inputs keep every edge
 
     Theorems about the model `dfsMarked` / `execDepthFirst` and `hasCycles` (Autog/Model/Phase1.lean; key `T:phase1`).
@@ -110,6 +111,19 @@ theorem C14_dfs_minimal_on_pipeline (g : G) (h : AdjL g) :
         IsWalkE (outE (removeTwoNodeCycles g)) v path u ∧ ∀ x ∈ pathIds path, x ∉ marked := by
   have h2 := adjL_removeTwoNodeCycles g h
   exact C14_dfs_minimal_exists _ h2.toAdj.edgesWF _ h2.toAdj.uniq
+
+/-- **C14 on every component of every input**: for any edge list and any options, each component `preProcess` hands to phase 1
+    is adjacency consistent (`adjL_preProcess`: the graph `Populate` builds, the closed node sets `walkDfs` returns, the
+    renumbering of `subgraph`, self-loop stripping), so the depth-first breaker run after the two-cycle pre-pass returns a
+    marked set and every marked edge closes a cycle with never-marked edges. No well-formedness hypothesis is left. -/
+theorem C14_dfs_minimal_any_input (cfg : Autog.Cfg) (es : InEdges) (cs : List (G × List Nat)) (hp : preProcess cfg es = .ok cs)
+    (c : G × List Nat) (hc : c ∈ cs) :
+    ∃ marked, dfsMarked (removeTwoNodeCycles c.1) = .ok marked ∧
+      ∀ id ∈ marked, ∃ u v path, (id, v) ∈ outE (removeTwoNodeCycles c.1) u ∧
+        IsWalkE (outE (removeTwoNodeCycles c.1)) v path u ∧ ∀ x ∈ pathIds path, x ∉ marked :=
+  C14_dfs_minimal_on_pipeline c.1 (adjL_preProcess cfg es cs hp c hc)
+
+theorem C14_adj_every_component : type_of% @adjL_preProcess := @adjL_preProcess
 
 theorem C14_adj_of_any_edge_list : type_of% @adjL_populate := @adjL_populate
 theorem C14_adj_contract_sound : type_of% @adjLb_sound := @adjLb_sound
